@@ -115,11 +115,12 @@ SIM = {"quick": [("MC_sim.cfg", 400, 120)], "thorough": [("MC_sim.cfg", 8000, 16
 TWINS = {"quick": 150, "thorough": 3000}
 
 SPECIFIC = {
-    "C01": ["legality", "shapes"],
+    "C01": ["legality", "shapes", "downgrade"],
+    "C07": ["downgrade"],
     "C04": ["vectors", "inbound"],
     "C08": ["vectors", "readersim"],
-    "C09": ["shapes", "legality", "arenasim"],
-    "C19": ["legality"],
+    "C09": ["shapes", "legality", "downgrade", "arenasim"],
+    "C19": ["legality", "downgrade"],
     "C11": ["vectors"],
     "C12": ["readersim"],
     "C14": ["vectors", "readersim", "maxima"],
@@ -353,7 +354,7 @@ def gen_twins(kind):
     return gen
 
 
-GENERATORS = {"inbound": gen_program("inbound"), "legality": gen_program("legality"), "shapes": gen_program("shapes"), "maxima": gen_program("maxima"),
+GENERATORS = {"downgrade": gen_program("downgrade"), "inbound": gen_program("inbound"), "legality": gen_program("legality"), "shapes": gen_program("shapes"), "maxima": gen_program("maxima"),
               "twins-aged": gen_aged, "arenasim": gen_arenasim, "readersim": gen_readersim, "timesim": gen_timesim, "vectors": gen_vectors, "twins-stall": gen_twins("stall"), "twins-fragcancel": gen_twins("fragcancel"), "twins-cancel": gen_twins("cancel"), "twins-fragment": gen_twins("fragment"), "common": gen_common, "witness": gen_witness, "cover": gen_cover, "sim": gen_sim}
 
 
